@@ -33,8 +33,9 @@ def main():
     if r["violated"]:
         rep.mc_violation("ExplainMC", r)
     if not quick:
-        r = explmc.run("C20_explain4", D1, maxn=4, workers=12)
-        rep.add_mc("ExplainMC: %d formulas of depth <= 1 x all traces of length <= 4" % len(D1), r)
+        one = [f for f in FU + D3 if vars_of(f) == ["x"]]      # (two variables at length 4: 6 561 x 6 561 alternatives per formula)
+        r = explmc.run("C20_explain4", one, maxn=5, workers=12)
+        rep.add_mc("ExplainMC: %d one-variable formulas of depth <= 2 x all traces of length <= 5" % len(one), r)
         if r["violated"]:
             rep.mc_violation("ExplainMC4", r)
     devs = {}
